@@ -1,15 +1,23 @@
 """C20 Hooks fire in well-formed start/stop pairs — spec/core/Path.tla"""
 import pathcheck
+import connhooks
 
 LEVEL = "model_checking"
 LEVEL_TEXT = ("hook command starts/stops are events of Path.tla; TLC checks strict alternation, start-command closed when the "
               "stop command is launched, and no open pair after termination, for runOnAvailable(runOnReady)/runOnUnavailable, "
               "runOnOnline/runOnOffline and runOnDemand/runOnUnDemand; the real path is replayed with the external-command "
-              "hook observing every Cmd.Start/Close in the caller's order and TLC evaluates the monitors on that sequence")
-LEVEL_NOTE = ("per-reader (runOnRead) and per-connection (runOnConnect) hooks live in the protocol servers and are not driven "
-              "by this check; commands are intercepted, not executed")
+              "hook observing every Cmd.Start/Close in the caller's order and TLC evaluates the monitors on that sequence; "
+              "second stage (ConnHooks.tla): runOnConnect/runOnDisconnect per connection and runOnRead/runOnUnread per reader "
+              "on ONE running Core with real RTSP, RTMP, SRT and HLS clients, kicks through the HTTP API, path configuration "
+              "removed/re-added, server re-creation and shutdown: TLC explores the bounded model, edge-covering walks are "
+              "replayed on the real Core and TLC judges the recorded hook events per $MTX_CONN_ID / $MTX_READER_ID")
+LEVEL_NOTE = ("commands are intercepted, not executed; per-reader / per-connection stage: RTSP (TCP), RTMP, SRT, HLS sessions; "
+              "WebRTC and the TLS variants are not driven; sequential client actions (races between a kick and a concurrent "
+              "client request are outside the walks)")
 
 
 def run(ctx):
-    pathcheck.run(ctx, "C20_", ctx.pick(["odpub_override", "sod"],
-                                        ["pub_override", "odpub", "odpub_override", "sod", "static", "rx", "rx_odpub"]), ["MonC20"])
+    pathcheck.run(ctx, "C20_", ctx.pick(["odpub_override", "sod", "aa_override"],
+                                        ["pub_override", "odpub", "odpub_override", "sod", "static", "rx", "rx_odpub",
+                                         "aa_override", "aa_nooverride"]), ["MonC20"])
+    connhooks.run(ctx)
